@@ -195,3 +195,65 @@ def _filecmp(ex, st, pos, kw, node, star):
         return [(st, VBool(content(a.t) == content(b.t)))]
     # shallow comparison consults os.stat signatures: unconstrained result
     return [(st, BOOL.fresh(ex.ctx, "shallow_cmp"))]
+
+
+# ---- pathlib relations, rglob, suffix, pathspec (A4 / A6) ------------------------------
+below = z3.Function("path_is_relative_to", _P, _P, z3.BoolSort())
+relto = z3.Function("path_relative_to", _P, _P, _P)
+rglob_all = z3.Function("fs_rglob_all", _P, z3.ArraySort(_P, z3.BoolSort()))
+suffix = z3.Function("path_suffix", _P, z3.StringSort())
+PATTERNS = Atom("Patterns")
+ignored = z3.Function("gitignore_match", PATTERNS.sort(), _P, z3.BoolSort())
+
+
+def _m_is_relative_to(ex, st, pos, kw, node, star):
+    if len(pos) != 2:
+        return [(st, Exc("TypeError", node.lineno))]
+    return [(st, VBool(below(_path(st, pos[0]).t, _path(st, pos[1]).t)))]
+
+
+def _m_relative_to(ex, st, pos, kw, node, star):
+    if len(pos) != 2:
+        return [(st, Exc("TypeError", node.lineno))]
+    a, b = _path(st, pos[0]).t, _path(st, pos[1]).t
+    return ex.guarded(st, [(below(a, b), VAtom(PATH, relto(a, b))), (z3.Not(below(a, b)), Exc("ValueError", node.lineno))])
+
+
+def _m_rglob(ex, st, pos, kw, node, star):
+    pat = concrete_str(ops.deref(st, pos[1]).t) if len(pos) == 2 else None
+    if pat != "*":
+        raise Unsupported(f"rglob({pat!r}): the stub covers '*' only")
+    s = VSet(PATH, rglob_all(_path(st, pos[0]).t))
+    st.assume(bigop.fin(s.t))
+    return [(st, s)]
+
+
+def _attr_suffix(v):
+    return VStr(suffix(v.t))
+
+
+STUBS["method:is_relative_to"] = _m_is_relative_to
+STUBS["method:relative_to"] = _m_relative_to
+STUBS["method:rglob"] = _m_rglob
+ASSUMED["method:is_relative_to"] = "A4 Path.is_relative_to: a relation on names"
+ASSUMED["method:relative_to"] = "A4 Path.relative_to: defined (no ValueError) exactly when is_relative_to holds"
+ASSUMED["method:rglob"] = "A4 Path(d).rglob('*') enumerates a finite set of paths below d (every entry, without descending into symlinked directories)"
+
+
+@stub("pathspec.GitIgnoreSpec.from_lines", assumed="A6 pathspec: GitIgnoreSpec.from_lines(patterns).match_file(rel) is a function of (patterns, rel); its git conformance is not verified")
+def _from_lines(ex, st, pos, kw, node, star):
+    v = ops.deref(st, pos[0])
+    if not (isinstance(v, VAtom) and v.kind == PATTERNS):
+        raise Unsupported("GitIgnoreSpec.from_lines of a non-pattern-list")
+    return [(st, VHandle("gitignore", v))]
+
+
+def _m_match_file(ex, st, pos, kw, node, star):
+    h = pos[0]
+    if not (isinstance(h, VHandle) and h.tag == "gitignore"):
+        raise Unsupported("match_file on a non-spec")
+    return [(st, VBool(ignored(h.payload.t, _path(st, pos[1]).t)))]
+
+
+STUBS["method:match_file"] = _m_match_file
+ASSUMED["method:match_file"] = "A6 pathspec match_file"
